@@ -351,6 +351,81 @@ func init() {
 	//  (O2) an application write made before the step survives, unless the shadow holds a version
 	//       that wins last-writer-wins against (detection time, that write);
 	//  (O3) entries the application did not touch and the snapshot does not mention keep their bytes.
+	// prop.c01.load <id> <snapshot> <lastSynced> <now> <cutoff> (native schema): nothing is
+	// invented by a merge - afterwards every key of an application DBI holds the version it
+	// held before, or exactly a version the snapshot carries for it (its timestamp, deleted
+	// flag and value), and the winner is the last-writer-wins maximum of the two.
+	implOps["prop.c01.load"] = func(a []string) string {
+		i := insts[a[0]]
+		if !i.native {
+			return "bad-op"
+		}
+		before, err := imageOf(i)
+		if err != nil {
+			return "err image"
+		}
+		snap, err := parseSnapArg(a[1])
+		if err != nil {
+			return "err snapshot-arg"
+		}
+		w := beginWindow(u64(a[3]))
+		_, _, lerr := i.s.LoadOnce(context.Background(), i.env, "remote", snapshot.Update{Snapshot: snap, NameInfo: snapshot.NameInfo{Kind: snapshot.KindSnapshot}}, header.TxnID(relTxn(i, a[2])))
+		w.end()
+		if lerr != nil {
+			return "ok refused"
+		}
+		after, err := imageOf(i)
+		if err != nil {
+			return "err image"
+		}
+		cand := map[string][]ver{} // dbi \x00 key -> versions the snapshot carries
+		for _, d := range snap.Databases {
+			if isPrivateName(d.Name()) {
+				continue
+			}
+			ents, err := dbiEntries(d)
+			if err != nil {
+				return "err snapshot-arg"
+			}
+			for _, e := range ents {
+				del := e.Flags&1 != 0 || (len(e.Value) == 0 && snap.FormatVersion < 2)
+				v := ver{ts: e.TimestampNano, del: del, val: e.Value}
+				if del {
+					v.val = nil
+				}
+				cand[d.Name()+"\x00"+string(e.Key)] = append(cand[d.Name()+"\x00"+string(e.Key)], v)
+			}
+		}
+		same := func(x, y ver) bool { return x.ts == y.ts && x.del == y.del && bytes.Equal(x.val, y.val) }
+		for _, n := range after.names {
+			if isPrivateName(n) {
+				continue
+			}
+			for _, p := range after.dbis[n].kvs {
+				cur, err := decodeStored(p.v)
+				if err != nil {
+					continue // not written by Lightning Stream's merge (it would have failed)
+				}
+				ok := false
+				if b := before.dbis[n]; b != nil {
+					for _, q := range b.kvs {
+						if bytes.Equal(q.k, p.k) {
+							if old, err := decodeStored(q.v); err == nil && same(old, cur) {
+								ok = true
+							}
+						}
+					}
+				}
+				for _, c := range cand[n+"\x00"+string(p.k)] {
+					ok = ok || same(c, cur)
+				}
+				if !ok {
+					return fmt.Sprintf("FAIL stored-version-is-neither-the-previous-one-nor-one-of-the-snapshot dbi=%s key=%s ts=%d del=%v val=%s", n, hx(p.k), cur.ts, cur.del, hx(cur.val))
+				}
+			}
+		}
+		return "ok applied"
+	}
 	// prop.c04.load <id> <snapshot> <lastSynced> <now> <cutoff>: with the sweeper configured, a
 	// deletion marker older than the load cut-off is not created on an instance that has no entry
 	// for the key, and one younger than it is (markers travel). Timestamps below 10^17 are
